@@ -1465,9 +1465,14 @@ def _cd_array_call(case):
     if cont.startswith('int'):          # evaluation points with integer coordinates given as Python ints / an int array
         X = X.astype(int)
     arg = X if cont.endswith('array') else X.tolist()
+    keep = X.copy()
     try:
         with np.errstate(all='ignore'):
             g = central_difference(poly, arg) if case['shift'] is None else central_difference(poly, arg, case['shift'])
+        if cont.endswith('array') and not (arg.dtype == keep.dtype and np.array_equal(arg, keep)):
+            bad = np.argwhere(arg != keep)[0]
+            return ('mutated', 'input', f'the coordinate array handed in was changed: entry {tuple(int(v) for v in bad)} '
+                    f'{keep[tuple(bad)]!r} -> {arg[tuple(bad)]!r}'), poly
         return np.asarray(g), poly
     except Exception as e:  # noqa: an observation
         return ('raise', type(e).__name__, str(e)[:200]), poly
@@ -1479,7 +1484,7 @@ def _cd_array_check(case, got, poly, want_flat=None):
     shape = tuple(case['lead']) + (poly.dim,)
     s = 1e-5 if case['shift'] is None else case['shift']
     if isinstance(got, tuple):
-        return f'raised {got[1]}: {got[2]}'
+        return got[2] if got[0] == 'mutated' else f'raised {got[1]}: {got[2]}'
     if tuple(got.shape) != shape:
         return f'returned shape {tuple(got.shape)}'
     if want_flat is None:
